@@ -52,28 +52,42 @@ Definition event_code (e : event) : Z * Z :=
 Definition payload_of_code (z : Z) : payload :=
   if z =? 1 then PayloadError else if z =? 2 then PayloadOther else PayloadNil.
 
-Definition step_of_codes (where_ pay : Z) : step_outcome :=
+Definition step_of_codes (where_ pay who : Z) : step_outcome :=
   if where_ =? 1 then PanicInTry (payload_of_code pay)
   else if where_ =? 2 then PanicInCoolBefore (payload_of_code pay)
   else if where_ =? 3 then PanicInCoolAfter (payload_of_code pay)
+  else if where_ =? 4 then PanicInStartObserver (Z.to_nat who) (payload_of_code pay)
+  else if where_ =? 5 then PanicInFinishObserver (Z.to_nat who) (payload_of_code pay)
   else StepOk.
 
-Definition init_of_code (z : Z) : init_outcome :=
-  if z =? 0 then InitOk else InitPanics (payload_of_code z).
+(* where 6 / 7: observer `who` panics on the start / finish event; td: TearDown panics *)
+Definition faults_of_codes (init where_ pay who td : Z) : faults :=
+  mkFaults (if init =? 0 then InitOk else InitPanics (payload_of_code init))
+           (if where_ =? 6 then Some (Z.to_nat who, payload_of_code pay) else None)
+           (if where_ =? 7 then Some (Z.to_nat who, payload_of_code pay) else None)
+           (if td =? 0 then None else Some (payload_of_code td)).
 
 Definition outcome_code (o : outcome) : Z :=
   match o with
-  | Finished | Swallowed _ => 0       (* Anneal() returned *)
-  | Repanicked _ _ => 1               (* re-panicked with the injected value or an error wrapping it
-                                         (whether it is wrapped is not compared: not part of the property) *)
+  | Finished | Swallowed _ => 0           (* Anneal() returned *)
+  | Repanicked _ PayloadError => 1        (* re-panicked with the injected error or an error wrapping it
+                                             (whether it is wrapped is not compared: not part of the property) *)
+  | Repanicked _ PayloadOther => 2        (* re-panicked with the very value *)
+  | Repanicked _ PayloadNil => 4          (* re-panicked with an error that is none of the injected values *)
   | OutOfFuel => 99
   end.
+(* which panic's value comes out when TearDown panics on top of another fault is checked by the harness' classification:
+   codes 1 / 2 are only reported for the value of the panic that the model says is in flight (TearDown's) *)
 
 Record case := mkCase {
   c_ann : Z;        (* 0 SimpleAnnealer, 1 ElapsedTimeTrackingAnnealer *)
   c_N : Z; c_m : Z;
   c_init : Z;       (* 0 ok, 1/2/3 Initialise panics with error / other / nil *)
+                    (* c_where: 0 none, 1 TryRandomChange, 2/3 CoolDown before/after the multiplication, 4/5 observer c_who on
+                       StartedIteration/FinishedIteration c_k, 6/7 observer c_who on the start / finish event *)
   c_k : Z; c_where : Z; c_pay : Z;
+  c_who : Z;        (* the observer that panics (where 4..7) *)
+  c_td : Z;         (* 0: TearDown returns; 1/2/3: it panics with error / other / nil *)
   c_c0 : Z; c_T0 : Z; c_a : Z;
   c_temps : list Z; (* the distinct temperature bit patterns of the log, in order of first appearance *)
   c_log : list Z;   (* flattened quadruples: who, event code, k, index into c_temps;
@@ -83,8 +97,9 @@ Record case := mkCase {
 
 Definition model_run (c : case) : run :=
   anneal_gen (if c_ann c =? 0 then SimpleAnnealer else ElapsedTimeTrackingAnnealer)
-             (init_of_code (c_init c)) (Z.to_nat (c_c0 c)) (Z.to_nat (c_N c))
-             (panic_at (Z.to_nat (c_k c)) (step_of_codes (c_where c) (c_pay c)))
+             (faults_of_codes (c_init c) (c_where c) (c_pay c) (c_who c) (c_td c))
+             (Z.to_nat (c_c0 c)) (Z.to_nat (c_N c))
+             (panic_at (Z.to_nat (c_k c)) (step_of_codes (c_where c) (c_pay c) (c_who c)))
              (fl_of_bits (c_T0 c)) (fl_of_bits (c_a c)).
 
 Definition entry := (Z * Z * Z * spec_float)%type.
@@ -101,7 +116,12 @@ Definition model_log (c : case) : list entry :=
   map (fun d : option nat * stamped =>
          let '(code, k) := event_code (fst (snd d)) in
          (match fst d with None => 0 | Some i => Z.of_nat (S i) end, code, k, Prim2SF (snd (snd d))))
-      (deliveries (Z.to_nat (c_m c)) (filter is_compared (trace (model_run c)))).
+      (let r := model_run c in
+       let tr := filter is_compared (trace r) in
+       match cut r with
+       | None => deliveries (Z.to_nat (c_m c)) tr
+       | Some j => deliveries_cut (Z.to_nat (c_m c)) j tr      (* = run_deliveries on the compared events *)
+       end).
 
 Definition expand (w code k : Z) (t : spec_float) : list entry :=
   if w <? 0 then map (fun i => (Z.of_nat (S i), code, k, t)) (seq 0 (Z.to_nat (- w))) else [(w, code, k, t)].
